@@ -55,6 +55,7 @@ class CondSpace:
         self.subj_consts = {}    # subject term -> set of const values
         self.pairs = {}          # (a, b) canonical -> True
         self.free = {}           # atom term -> True
+        self.singletons = set()  # (integer subject, value): regions that consist of exactly one value
         self.int_subject = int_subjects or (lambda t: head(t) == "call" and head(strip(t[1])) == "glob" and strip(t[1])[1] == "builtins.len")
 
     # ---- collection
@@ -113,9 +114,17 @@ class CondSpace:
                 fin = [n for n in nums if n not in (float("inf"), float("-inf"))]
                 pts = []
                 if fin:
-                    pts.append(("n", fin[0] - 1))
+                    if isint and 0 < fin[0] <= 4 and fin[0] == int(fin[0]):
+                        # a length below a small bound: every possible value is its own case (and may be substituted into the leaves)
+                        for v in range(0, int(fin[0])):
+                            pts.append(("n", F(v)))
+                            self.singletons.add((s, F(v)))
+                    else:
+                        pts.append(("n", fin[0] - 1))
                     for i, n in enumerate(fin):
                         pts.append(("n", n))
+                        if isint:
+                            self.singletons.add((s, n))
                         nxt = fin[i + 1] if i + 1 < len(fin) else None
                         if nxt is None:
                             pts.append(("n", n + 1))
@@ -306,7 +315,7 @@ def compare_trees(code, spec, leaf_eq, alias=None, assume=None, int_subjects=Non
                 explore(v2)
             return
         # path-sensitive refinement of the leaves: on a path where x == y (or x == constant) holds, x may be replaced
-        m = {}
+        m, mr = {}, {}
         for key, reg in val.items():
             if key[0] == "pair" and reg == "eq":
                 m[key[1][0]] = key[1][1]
@@ -318,9 +327,17 @@ def compare_trees(code, spec, leaf_eq, alias=None, assume=None, int_subjects=Non
                 if any(float(reg[1]) == float(c) for c in consts if c not in (float("inf"), float("-inf"))):
                     v = reg[1]
                     m[key[1]] = ("const", "int", int(v)) if float(v) == int(float(v)) else ("const", "float", float(v))
+                elif (key[1], reg[1]) in space.singletons:
+                    mr[key[1]] = ("const", "int", int(reg[1]))
         if m:
             from .terms import subst
             a, b = subst(strip_all(a), m), subst(strip_all(b), m)
+        if mr:
+            # a length that is known exactly on this path: used for the bounds of range(...) loops only (is the loop empty?)
+            from .terms import subst
+            from .rules import rewrite
+            inrange = lambda x: subst(x, mr) if (head(x) == "call" and strip(x[1]) == ("glob", "builtins.range")) else x
+            a, b = rewrite(strip_all(a), inrange), rewrite(strip_all(b), inrange)
         k = (a, b)
         if k in seen:
             return
